@@ -55,7 +55,9 @@ var fixtureRuleSets = func() map[string]*lexgen.RuleSet {
 var fixtureLexNames = func() []string {
 	var ns []string
 	for n := range fixtureRuleSets {
-		ns = append(ns, n)
+		if fixtures.Get(n) != nil { // nil: the example's grammar did not build (fixtures.BuildFailures)
+			ns = append(ns, n)
+		}
 	}
 	sort.Strings(ns)
 	return ns
